@@ -1,6 +1,7 @@
 //! Shared kit for the bounded-exhaustive exploration of rustic_core (see /verif/DESIGN.md §3).
 pub mod backend;
 pub mod decode;
+pub mod fsx;
 pub mod gate;
 pub mod logical;
 pub mod rep;
